@@ -37,6 +37,14 @@ def Style.desc : Style → Option (List UInt8)
   | .bar => some (str "|x| = #")
   | .enc => some (str "{x} = #")
 
+/-- decoration of the end line `}` of a section that is written without content (see `LineDecor.close`) -/
+structure CloseDecor where
+  before : List UInt8 := []
+  indent : List UInt8 := []
+  trail  : List UInt8 := []
+  glue   : Option (List UInt8) := none
+  deriving Repr, Inhabited
+
 /-- decoration of one line -/
 structure LineDecor where
   before : List UInt8 := []   -- whole lines in front: blank lines and comment lines
@@ -46,14 +54,22 @@ structure LineDecor where
   trail  : List UInt8 := []   -- behind the element: blanks, optionally followed by `#` and a comment text
   glue   : Option (List UInt8) := none  -- section start / end lines only: comment text put directly (without
                                         -- blank) behind the element, instead of `trail`
+  close  : Option CloseDecor := none    -- nested styles, a node without value and without children: write it as an
+                                        -- EMPTY SECTION (start line + end line with this decoration) instead of `name=`
   deriving Repr, Inhabited
+
+/-- the end line decoration as a line decoration -/
+def CloseDecor.line (c : CloseDecor) : LineDecor :=
+  { before := c.before, indent := c.indent, trail := c.trail, glue := c.glue }
 
 /-- decoration per output line (lines are numbered from 0 in writing order) -/
 abbrev Decor := Nat → LineDecor
 
 def noDecor : Decor := fun _ => {}
 
-def isBlank (c : UInt8) : Bool := c == 32 || c == 9
+/-- white space inside a line: blank, tab, vertical tab, form feed, carriage return (so CR LF line ends are
+    trailing white space) -/
+def isBlank (c : UInt8) : Bool := c == 32 || c == 9 || c == 11 || c == 12 || c == 13
 def isSpace (c : UInt8) : Bool := c == 32 || (9 ≤ c && c ≤ 13)
 
 /-- `ws* ('#' non-newline*)?` -/
@@ -87,9 +103,12 @@ def headTrail (d : LineDecor) : List UInt8 :=
 def headTrailOk (l : List UInt8) : Bool :=
   trailOk l || (match l with | c :: t => c == 35 && !t.contains 10 | [] => false)
 
-def LineDecor.ok (d : LineDecor) : Bool :=
+def LineDecor.okBase (d : LineDecor) : Bool :=
   insignificantLines d.before && d.indent.all isBlank && d.pre.all isBlank && d.post.all isBlank && trailOk d.trail
     && headTrailOk (headTrail d)
+
+def LineDecor.ok (d : LineDecor) : Bool :=
+  d.okBase && (match d.close with | some c => c.line.okBase | none => true)
 
 def Decor.ok (d : Decor) : Prop := ∀ k, (d k).ok = true
 
@@ -120,9 +139,12 @@ def writeValue (v : List UInt8) : List UInt8 :=
 def valueOk (v : List UInt8) : Bool :=
   !v.isEmpty && !v.contains 0
 
-/-- names: letters, digits, `_` and `-`; not empty; short enough for an identifier -/
+/-- names: every byte except the zero byte, white space, the comment character `#`, the assignment
+    character `=`, the section delimiters of the four styles (`{ } [ ] |`) and the path separator `.`
+    (known finding `dot-in-name`) — letters, digits, punctuation, quotes, backslash, control characters,
+    bytes ≥ 0x80; not empty; short enough for an identifier -/
 def nameChar (c : UInt8) : Bool :=
-  (48 ≤ c && c ≤ 57) || (65 ≤ c && c ≤ 90) || (97 ≤ c && c ≤ 122) || c == 95 || c == 45
+  c != 0 && !isSpace c && c != 35 && c != 61 && c != 123 && c != 125 && c != 91 && c != 93 && c != 124 && c != 46
 def nameOk (n : List UInt8) : Bool := !n.isEmpty && n.all nameChar && n.length < 65535
 
 /-! ### lines -/
@@ -151,11 +173,23 @@ def closeLine (d : LineDecor) : List UInt8 :=
 def encOpenLine (d : LineDecor) (n : List UInt8) : List UInt8 :=
   d.before ++ d.indent ++ [123] ++ n ++ headTrail d ++ [10]
 
+/-- no value, or an empty one -/
+def valueless (v : Option (List UInt8)) : Bool :=
+  match v with | none => true | some x => x.isEmpty
+
+/-- a node without children in a nested style: `name=value`, or — when it has no value and the decoration
+    says so — an empty section -/
+def leafLines (openL : LineDecor → List UInt8 → List UInt8) (dl : LineDecor) (n : List UInt8)
+    (v : Option (List UInt8)) : List UInt8 :=
+  match dl.close, valueless v with
+  | some c, true => openL dl n ++ closeLine c.line
+  | _, _ => optionLine dl n v
+
 mutual
 /-- nested styles (section start line given by `openL`, section end `}`), one tree starting at line `k` -/
 def renderTree (openL : LineDecor → List UInt8 → List UInt8) (d : Decor) (k : Nat) : Tree → List UInt8
   | .node n v cs =>
-    if cs.isEmpty then optionLine (d k) n v
+    if cs.isEmpty then leafLines openL (d k) n v
     else openL (d k) n ++ renderNest openL d (k + 1) cs ++ closeLine (d (k + 1 + braceLines cs))
 /-- nested styles, a forest starting at line `k` -/
 def renderNest (openL : LineDecor → List UInt8 → List UInt8) (d : Decor) (k : Nat) : Forest → List UInt8
@@ -171,21 +205,48 @@ def renderOptions (d : Decor) : Nat → Forest → List UInt8
   | _, [] => []
   | k, (.node n v _) :: ts => optionLine (d k) n v ++ renderOptions d (k + 1) ts
 
-/-- flat styles: `open_` in front of a section name, `close` behind it -/
+/-- flat styles, the sections: header line (`open_` in front of the name, `close` behind it) and option lines;
+    a node without children is an empty section (header only) -/
+def renderSects (d : Decor) (open_ close : List UInt8) : Nat → Forest → List UInt8
+  | _, [] => []
+  | k, (.node n _ cs) :: ts =>
+    ((d k).before ++ (d k).indent ++ open_ ++ n ++ close ++ headTrail (d k) ++ [10])
+      ++ renderOptions d (k + 1) cs ++ renderSects d open_ close (k + 1 + cs.length) ts
+
+/-- flat styles: option lines up to the first node with children, sections from there on -/
 def renderFlat (d : Decor) (open_ close : List UInt8) : Nat → Forest → List UInt8
   | _, [] => []
   | k, (.node n v cs) :: ts =>
     if cs.isEmpty then optionLine (d k) n v ++ renderFlat d open_ close (k + 1) ts
-    else
-      ((d k).before ++ (d k).indent ++ open_ ++ n ++ close ++ headTrail (d k) ++ [10])
-        ++ renderOptions d (k + 1) cs ++ renderFlat d open_ close (k + 1 + cs.length) ts
+    else renderSects d open_ close k ((.node n v cs) :: ts)
 
-def render (style : Style) (d : Decor) (f : Forest) : List UInt8 :=
+/-- lines (decoration slots) of a forest in a flat style -/
+def flatLines : Forest → Nat
+  | [] => 0
+  | (.node _ _ cs) :: ts => 1 + cs.length + flatLines ts
+
+/-- what may follow the last element: blank and comment lines and a last line without line feed that holds
+    blanks and/or a comment (`before`, `indent`, `trail`/`glue` of the decoration) -/
+def endText (dl : LineDecor) : List UInt8 := dl.before ++ dl.indent ++ headTrail dl
+
+/-- the elements of a forest in a style, lines numbered from `0` -/
+def renderBody (style : Style) (d : Decor) (f : Forest) : List UInt8 :=
   match style with
   | .brace => renderBrace d 0 f
   | .sep => renderFlat d [91] [93] 0 f
   | .bar => renderFlat d [124] [] 0 f
   | .enc => renderNest encOpenLine d 0 f
+
+/-- number of decoration slots the elements take -/
+def bodyLines (style : Style) (f : Forest) : Nat :=
+  match style with
+  | .brace => braceLines f
+  | .enc => braceLines f
+  | _ => flatLines f
+
+/-- the text of a forest: its elements, then the end text of the first unused decoration slot -/
+def render (style : Style) (d : Decor) (f : Forest) : List UInt8 :=
+  renderBody style d f ++ endText (d (bodyLines style f))
 
 /-! ### which forests a style can express -/
 
@@ -205,12 +266,16 @@ end
 def isLeaf : Tree → Bool
   | .node _ _ cs => cs.isEmpty
 
-/-- flat styles: options in front, then sections; sections hold options only -/
+/-- a section of a flat style: it holds options only; without options it has no value either -/
+def sectNode : Tree → Bool
+  | .node _ v cs => cs.all isLeaf && (!cs.isEmpty || valueless v)
+
+/-- flat styles: options in front, then (from the first node with children on) sections -/
 def flatShape : Forest → Bool
   | [] => true
   | (.node _ _ cs) :: ts =>
     if cs.isEmpty then flatShape ts
-    else cs.all isLeaf && ts.all (fun t => !isLeaf t && t.children.all isLeaf)
+    else cs.all isLeaf && ts.all sectNode
 
 def admissible (style : Style) (f : Forest) : Bool :=
   nodesOk f && (match style with | .brace => true | .enc => true | _ => flatShape f)
@@ -238,8 +303,19 @@ def decorOf (i : Nat) : Decor :=
   | 3 => fun k => {
       before := if k == 0 then str "#!first line\n\n" else [],
       indent := List.replicate (k % 2) 32, trail := if k % 2 == 0 then str " #" else [32] }
-  | _ => fun k => {
+  | 4 => fun k => {
       indent := List.replicate (k % 2) 9, trail := if k % 2 == 0 then str "\t# t" else [],
       glue := if k % 3 == 0 then some (str " glued text") else if k % 3 == 1 then some [] else none }
+  | 5 => fun k => {   -- CR LF line ends, form feed / vertical tab as blanks, empty sections, text without final line feed
+      before := if k % 4 == 1 then str "\r\n# c\r\n" else [],
+      indent := if k % 3 == 0 then [] else [12],
+      pre := if k % 2 == 0 then [11] else [], post := if k % 2 == 0 then [] else [13, 32],
+      trail := [13],
+      close := if k % 2 == 0 then some { indent := [32], trail := [13] } else none }
+  | _ => fun k => {   -- empty sections with decorated end lines, a last line that is an unterminated comment
+      before := if k % 3 == 2 then str "\n" else [],
+      trail := if k % 2 == 0 then [] else str " # end",
+      glue := if k % 4 == 3 then some (str "x") else none,
+      close := if k % 3 == 0 then none else some { before := str "# empty\n", indent := [9], glue := if k % 2 == 0 then some [] else none } }
 
 end Mpt.Render
